@@ -459,10 +459,26 @@ impl FormatSpec {
             Some(FormatType::Exponent(_) | FormatType::FixedPoint(_) | FormatType::Percentage) => {
                 self.format_float(x as f64)
             }
-            None => {
+            // only the empty spec gives the name; any other spec without a type formats the integer
+            None if matches!(
+                self,
+                FormatSpec {
+                    conversion: None,
+                    fill: None,
+                    align: None,
+                    sign: None,
+                    alternate_form: false,
+                    width: None,
+                    grouping_option: None,
+                    precision: None,
+                    format_type: None,
+                }
+            ) =>
+            {
                 let first_letter = (input.to_string().as_bytes()[0] as char).to_uppercase();
                 Ok(first_letter.collect::<String>() + &input.to_string()[1..])
             }
+            None => self.format_int(&BigInt::from_u8(x).unwrap()),
             _ => Err(FormatSpecError::InvalidFormatSpecifier),
         }
     }
